@@ -255,7 +255,7 @@ def run(tier, seed, rng):
     vcases = []
     for W in (2, 3, 4):
         for n in ([1, 2, 3, 5, 8] if tier == 'quick' else [1, 2, 3, 4, 5, 8, 13, 21, 34]):
-            for fn in ('allreduce', 'allreduce_avg', 'broadcast', 'allreduce_bucketed'):
+            for fn in ('allreduce', 'allreduce_avg', 'allreduce_avg_raw', 'broadcast', 'allreduce_bucketed', 'allreduce_bucketed_avg_raw'):
                 for dt in ('float32', 'float64'):
                     vcases.append({'kind': 'sym_vs_dense', 'W': W, 'n': n, 'fn': fn, 'dtype': dt})
     for k, case in enumerate(vcases):
@@ -266,10 +266,22 @@ def run(tier, seed, rng):
             comm = TorchDistributedCommunicator(bucket_cap_mb=1.0)
             base = torch.arange(n * n, dtype=dt).reshape(n, n) * (rank + 1) + 7 * rank
             t = torch.triu(base) + torch.triu(base, 1).t()
+
+            def traw():     # arbitrary (non-integer) symmetric contents, the same on both paths; simdist reduces in rank order on both
+                g = torch.Generator().manual_seed(1000 * n + rank)
+                x = torch.randn(n, n, generator=g, dtype=torch.float64).to(dt) * 50
+                return torch.triu(x) + torch.triu(x, 1).t()
             if fn == 'allreduce':
                 r = comm.allreduce(t, symmetric=sym)
             elif fn == 'allreduce_avg':
                 r = comm.allreduce(t * W, symmetric=sym, average=True)
+            elif fn == 'allreduce_avg_raw':
+                # the mean of values that are NOT multiples of the group size: the same arithmetic (sum, then one scaling) on
+                # both paths gives the same bits; scaling every term before the sum would not
+                r = comm.allreduce(traw(), symmetric=sym, average=True)
+            elif fn == 'allreduce_bucketed_avg_raw':
+                r = comm.allreduce_bucketed(traw(), symmetric=sym, average=True)
+                comm.flush_allreduce_buckets()
             elif fn == 'broadcast':
                 r = comm.broadcast(t, src=W - 1, symmetric=sym)
             else:
